@@ -519,3 +519,104 @@ R.contract("Application.send_answer", params={"self": "Application", "message": 
            modifies=["dict:some(self._node)._peer_waiting_answer[h0]", "dict:some(self._node)._sent_answers",
                      "dict:some(self._node)._origin_waiting_answer", "*deque:int", "*dict:Dict[int,float]"],
            props=["C09"])
+
+# ---- C10: request routing ---------------------------------------------------------------------------------------
+R.model("Node", fields={"g_sel_offer": "Seq[Any]", "peer_route_select_func": "Any:selector"})
+
+
+@R.specfn("call_opaque_selector")
+def _call_selector(ex, st, f, args, kwargs, k, where):
+    """the peer-selection callback: assumed to return one of the peers it is offered; the offered list is logged (ghost)"""
+    from pyvc.smt import seq_contains_elem, seq_concat, seq_unit
+    from pyvc.values import VRef
+    node, app, msg, peers = args
+    items, _ = ex.as_seq(st, peers)
+    r = ex.decls.fresh("selected_peer", _INT)
+    st = st.assume(seq_contains_elem(items, r))
+    res = VRef(r, "Peer")
+    ex.add_ref_facts(st, res)
+    if hasattr(peers, "comp"):
+        ex.comp_instantiate(st, peers, r)
+    log = ex.read_field(st, node, "g_sel_offer")
+    st = ex.write_field(st, node, "g_sel_offer", type(log)(seq_concat(log.t, seq_unit(peers.t)), log.elem))
+    return k(st, res)
+
+
+R.assume("the peer selection callback returns one of the peers it is offered and raises nothing (default: select_least_used_peer)")
+R.macro("ready_peer", ["p"], "not is_none(p.connection) and (some(p.connection).state == %d or some(p.connection).state == %d)" % (READY, READY_WAITING_DWA))
+R.macro("rq_realm", ["n", "m"], "ite(hasattr(m, 'destination_realm'), utf8dec(some(m.destination_realm)), n.realm_name)")
+R.macro("rq_list_known", ["n", "a", "m"],
+        "rq_realm(n, m) in n._peer_routes and (a in routes(n, rq_realm(n, m)) or '_default' in routes(n, rq_realm(n, m)))")
+R.macro("rq_list", ["n", "a", "m"],
+        "ite(a in routes(n, rq_realm(n, m)), routes(n, rq_realm(n, m))[a], routes(n, rq_realm(n, m))['_default'])")
+R.contract("Node.route_request", params={"self": "Node", "app": "Application", "message": "Message"},
+           returns="Tuple[PeerConnection,Message]", ghost={"p": "Peer"}, ghost_out={"q": ("peer", "Peer")},
+           requires=[("realm-attr-set", "implies(hasattr(message, 'destination_realm'), has(message, 'destination_realm') and "
+                                        "not is_none(message.destination_realm) and valid_utf8(some(message.destination_realm)))"),
+                     ("ids-nonneg", "message.header.hop_by_hop_identifier >= 0")],
+           ensures=[("sent-to-an-eligible-ready-peer",
+                     "old(rq_list_known(self, app, message)) and q in old(rq_list(self, app, message)) and "
+                     "ready_peer(q) and result[0] == some(q.connection)"),
+                    ("hop-by-hop-nonzero", "message.header.hop_by_hop_identifier != 0"),
+                    ("keeps-a-given-hop-by-hop", "implies(old(message.header.hop_by_hop_identifier) != 0, "
+                                                 "message.header.hop_by_hop_identifier == old(message.header.hop_by_hop_identifier))"),
+                    ("answer-correlation-recorded", "self._app_waiting_answer[mkey(message)] == app and result[1] == message")],
+           raises=[Raise("NotRoutable", "not (rq_list_known(self, app, message) and p in rq_list(self, app, message) and ready_peer(p))", "only_if")],
+           ghost_modifies=["self.g_sel_offer"],
+           modifies=["message.header.hop_by_hop_identifier", "*SequenceGenerator._sequence", "dict:self._app_waiting_answer"],
+           props=["C10", "C16"],
+           note="p is an arbitrary witness peer: NotRoutable only if p is not an eligible ready peer (so: raised only when no "
+                "eligible peer exists); on NotRoutable the frame shows that no table changed and nothing was queued")
+R.loop("Node.route_request", 0,
+       invariants=[("not-found", "is_none(peer_list)"),
+                   ("app-key-not-visited", "not (app in done)")],
+       local_kinds={"peer_list": "Opt[List[Peer]]"})
+
+R.contract("Event.__new__", trusted=True, params={}, returns="Event", allocates=True, ensures=["not result.flag"])
+R.contract("Event.wait", trusted=True, params={"self": "Event", "timeout": "Opt[int]"}, returns="bool",
+           modifies=["*WaitingMessage.answer", "*Event.flag"],
+           note="blocking wait: other threads may deliver an answer meanwhile (environment effect on the waiter objects)")
+R.inline_fn("WaitingMessage.__init__")
+R.exception("EmptyAnswer", "ApplicationError")
+R.exception("ApplicationError", "Exception")
+R.contract("Application.handle_answer", trusted=True, params={"self": "Application", "message": "Message"},
+           raises=[Raise("Exception", "True", "may")],
+           ghost_modifies=["self.g_unexpected"],
+           ghost_ensures=["self.g_unexpected == old(self.g_unexpected) + [message]"],
+           note="user hook for unexpected answers (behavioural contract)")
+R.model("Application", fields={"g_unexpected": "Seq[Message]"})
+R.contract("Application.receive_answer#impl", params={"self": "Application", "message": "Message"},
+           ensures=[("waiter-gets-exactly-this-answer",
+                     "implies(old(message.header.hop_by_hop_identifier in self._answer_waiting), "
+                     "old(self._answer_waiting[message.header.hop_by_hop_identifier]).answer == message and "
+                     "old(self._answer_waiting[message.header.hop_by_hop_identifier]).event.flag and "
+                     "self.g_unexpected == old(self.g_unexpected))"),
+                    ("unexpected-goes-to-own-handler",
+                     "implies(not old(message.header.hop_by_hop_identifier in self._answer_waiting), "
+                     "self.g_unexpected == old(self.g_unexpected) + [message])")],
+           raises=[Raise("Exception", "not (message.header.hop_by_hop_identifier in self._answer_waiting)", "only_if")],
+           ghost_modifies=["self.g_unexpected"],
+           modifies=["self._answer_waiting[message.header.hop_by_hop_identifier].answer "
+                     "if message.header.hop_by_hop_identifier in self._answer_waiting",
+                     "self._answer_waiting[message.header.hop_by_hop_identifier].event.flag "
+                     "if message.header.hop_by_hop_identifier in self._answer_waiting"],
+           props=["C10"])
+R.contract("Application.send_request", params={"self": "Application", "message": "Message", "timeout": "int"},
+           returns="Message", ghost={"p": "Peer"},
+           requires=[("registered", "not is_none(self._node)"), ("app-id-set", "not is_none(self.application_id)"),
+                     ("flags", "0 <= message.header.command_flags < 256 and is_req(message)"),
+                     ("realm-attr-set", "implies(hasattr(message, 'destination_realm'), has(message, 'destination_realm') and "
+                                        "not is_none(message.destination_realm) and valid_utf8(some(message.destination_realm)))"),
+                     ("ids-nonneg", "message.header.hop_by_hop_identifier >= 0 and message.header.end_to_end_identifier >= 0")],
+           ensures=[("waiter-released", "not (message.header.hop_by_hop_identifier in self._answer_waiting)"),
+                    ("ids-set", "message.header.hop_by_hop_identifier != 0 and message.header.end_to_end_identifier != 0")],
+           raises=[Raise("NotRoutable", "True", "may"), Raise("TimeoutError", "True", "may"), Raise("EmptyAnswer", "True", "may")],
+           ensures_exc={"TimeoutError": [("waiter-released", "not (message.header.hop_by_hop_identifier in self._answer_waiting)")],
+                        "EmptyAnswer": [("waiter-released", "not (message.header.hop_by_hop_identifier in self._answer_waiting)")],
+                        "NotRoutable": [("no-waiter-registered", "unchanged(self._answer_waiting)")]},
+           ghost_modifies=["*MsgQueue.g_put", "some(self._node).g_sel_offer"],
+           modifies=["message.header.hop_by_hop_identifier", "message.header.end_to_end_identifier",
+                     "message.header.application_id", "*SequenceGenerator._sequence",
+                     "dict:some(self._node)._app_waiting_answer", "dict:self._answer_waiting", "*WaitingMessage.answer", "*Event.flag"],
+           props=["C10", "C19"])
+R.kind_hints[("Application.__init__", "{}")] = "Dict[int,WaitingMessage]"
